@@ -494,8 +494,7 @@ def check_density(case, node, dom, pr, rep, extra):
                 return None, tape, f"{type(e).__name__}: {str(e)[:160]}"
         return pts, tape, None
 
-    simple = leaf.kind in PRIMS + ("point", "bdryL", "bdryR") or (leaf.kind == "uservol" and leaf_of(leaf.kids[0])[0].kind in PRIMS and
-                                                                     leaf_of(leaf.kids[0])[0] is not None)
+    simple = leaf.kind in PRIMS + ("point", "bdryL", "bdryR")
     if leaf.kind == "uservol":
         inner, inner_b = leaf_of(leaf.kids[0])
         simple = inner.kind in PRIMS
@@ -508,6 +507,9 @@ def check_density(case, node, dom, pr, rep, extra):
             pts, tape, err = sample(how)
             rep.count(f"density:{base.kind}{'-bdry' if base_b else ''}:{how}")
             if err:
+                if case["envs"] and any(kk in ("translate", "rotate") for kk in kinds(node)):
+                    rep.count("density-motion-with-params-raised(C02: row pairing of Translate/Rotate)")
+                    continue
                 rep.fail(f"{how} sampling with density {d} on a domain of measure {m:.6g} failed: {err}", dict(inp, how=how))
                 continue
             got = len(pts)
@@ -534,6 +536,20 @@ def check_density(case, node, dom, pr, rep, extra):
                 # expectation ceil(d*vol): binomial(2n, 1/2), 8 sigma
                 if abs(got - n0) > 8 * math.sqrt(n0 / 2 + 1) + 2:
                     rep.fail(f"triangle density sampling returned {got} points, expected about ceil(d*measure) = {n0}", dict(inp, how=how))
+                # the same with a density that asks for about 4000 points (a wrong factor cannot hide in the noise)
+                dbig = float(Fr(round(4000 / m * 16), 16)) if m < 4000 else float(d)
+                nbig = math.ceil(dbig * m)
+                try:
+                    with warnings.catch_warnings():
+                        warnings.simplefilter("ignore")
+                        gb = len(common.call_with_timeout(5, dom.sample_random_uniform, d=dbig, params=pr))
+                    if abs(gb - nbig) > 8 * math.sqrt(nbig / 2 + 1) + 2:
+                        rep.fail(f"triangle density sampling with density {dbig} returned {gb} points, expected about d*measure = {nbig} "
+                                 f"(+-{8 * math.sqrt(nbig / 2 + 1):.0f})", dict(inp, how=how, density=str(Fr(dbig))))
+                except common.CallTimeout:
+                    rep.count("density-timeout")
+                except Exception:  # noqa
+                    rep.count("density-big-raised")
             else:
                 check_grid(rep, inp, base, base_b, env, got, want, x, pts, extra, node)
         return
@@ -544,6 +560,9 @@ def check_density(case, node, dom, pr, rep, extra):
         pts, tape, err = sample("random")
         rep.count("density:prod:random")
         if any(x_ in vfree(node.kids[0]) for x_ in vvars(node.kids[1])):
+            return
+        if err and math.floor(x + 1e-6) == 0:
+            rep.count("density:prod:asks-for-0-points(raises; n = 0 is C02's business)")
             return
         if err:
             rep.fail(f"random sampling with density {d} on a constant product of measure {m:.6g} failed: {err}", dict(inp, how="random"))
@@ -856,7 +875,7 @@ def run(ctx, rep, cases=None):
                 "set_volume overrides; 0-5 parameter rows; partial evaluation; density sampling (random + grid) for at most one row. "
                 "non-trivial = an operation node, a parameter dependence or a density; distinct = distinct (expression, rows, sigma, density)")
     if cases is None:
-        cases = fixed_cases() + [make_case(ctx, i) for i in range(ctx.scale(450, 5000))]
+        cases = fixed_cases() + [make_case(ctx, i) for i in range(ctx.scale(1200, 12000))]
     lines, spans = [], []
     for cs in cases:
         node = geomgen.from_json(cs["dom"])
